@@ -28,6 +28,7 @@ ASSUMPTIONS = ["'lowest level requested by the flags' = VERBOSE if bit 1 set, el
 
 LEVELS = [0, 1, 2, 4]
 PART = {}   # concrete partition of the current condition (set by the worker / replay from cond["part"])
+EXTRA_BOUNDS = 'also: 4-6 setter histories per gate (incl. re-setting formatter/stream, I/O objects whose outputs were out of step); gate_section_redraw: gated write into the younger of two ANSI sections, then the older one writes / clear / overwrite.'
 
 
 def lowest(flags):
